@@ -28,7 +28,9 @@ Definition x_present (mn bn : str) (whole : list (str * xval)) (k : str) (v : xv
 Definition x_suffix (bn : str) : str := if str_eqb bn [67] then [32;32;35;32;86] else [].
 Definition x_comments (m : msg xval) : list str := [[35;32;73;68;58;32;49]].
 
-Definition x_from := from_human xval x_read_lit x_read_vec x_read_uuid x_repl x_eval x_pack.
+Definition x_none : xval := [78; 111; 110; 101].
+Definition x_has_ser (mn bn k : str) : bool := negb (starts_with 81 k).
+Definition x_from := from_human xval x_read_lit x_read_vec x_read_uuid x_repl x_eval x_none x_has_ser x_pack.
 Definition x_to := to_human xval x_present x_suffix x_comments.
 
 Definition ex_msg : msg xval :=
@@ -41,10 +43,8 @@ Definition ex_msg : msg xval :=
                     ([118], [49;44;50]);
                     ([114], [LBR; LBR; 88; RBR; RBR]) ] ;
                   [ ([97], [40;39;97;98;39;39;99;100;39;41]) ] ]);
-         ([67], [ [ ([120], [49]) ] ]) ] |}.
-
-(* the vector value v is shown as <1,2> *)
-Definition ex_msg_shown : msg xval := ex_msg.
+         ([67], [ [ ([120], [49]) ] ]);
+         ([69], []) ] |}.
 
 Definition ex_empty : msg xval :=
   {| m_in := true; m_name := [77]; m_flags := 0; m_blocks := [ ([66], []) ] |}.
